@@ -201,7 +201,20 @@ func (e *httpError) Unwrap() error {
 func (e *httpError) Is(err error) bool {
 	switch e.statusCode {
 	case http.StatusRequestedRangeNotSatisfiable:
-		return err == ErrRangeInvalid
+		if err != ErrRangeInvalid {
+			return false
+		}
+		// The status stands in for the RANGE_INVALID code when the
+		// response doesn't say anything more specific, but not when it
+		// carries some other standard code (BLOB_UPLOAD_INVALID
+		// also maps to this status).
+		var ociErr Error
+		if errors.As(e.underlying, &ociErr) && ociErr.Code() != ErrRangeInvalid.Code() {
+			if _, ok := errorStatuses[ociErr.Code()]; ok {
+				return false
+			}
+		}
+		return true
 	}
 	return false
 }
